@@ -55,6 +55,13 @@ def store_mc(ck, tier):
     invariants RcExact, NoDangling, UniqueTable, CacheSound, FailClean"""
     res = vlib.model_check("Store", "MC_StoreConcQuick", workers=6, xmx="4g", timeout=600)
     ck.add_mc(res, must_cover=STORE_ACTIONS)
+    # dynamic terminals (MTBDD): terminal table swept after the levels and before the cache is unlocked
+    res = vlib.model_check("StoreTerm", "MC_StoreTerm", workers=4, xmx="2g", timeout=600)
+    ck.add_mc(res, must_cover=["CacheGet", "GetEdge", "CacheAdd", "Publish", "HandleDrop", "GcTerms", "GcPost"])
+    # non-vacuity: with the cache unlocked before the terminal sweep the model must exhibit the dangling entry
+    neg = vlib.model_check("StoreTerm", "MC_StoreTerm_early", workers=2, xmx="2g", timeout=600, coverage=False)
+    if neg["ok"] or "NoDangling" not in (neg["violated"] or ""):
+        ck.tool_errors.append("vacuity: MC_StoreTerm_early (cache unlocked before the terminal sweep) does not violate NoDangling")
     if tier == "thorough":
         res = vlib.model_check("Store", "MC_StoreConcOom", workers=12, xmx="10g", timeout=1800)
         ck.add_mc(res, must_cover=STORE_ACTIONS + ["Fail"])
